@@ -87,8 +87,19 @@ TARGETS += [
          fallback="fun st => of_option (Tx.witness_to_bytes st)"),
     dict(coq="src_tx_to_bytes", file="bitcoinutils/transactions.py", qual="Transaction.to_bytes", params=[("has_segwit", "bool")],
          selfattrs=[("version", "bytes"), ("inputs", "list:txin"), ("outputs", "list:txout"), ("witnesses", "list:witness"), ("locktime", "bytes")],
-         ret="bytes", tiefile="tx_whole",
+         ret="bytes", tiefile="tx_whole", callable_method=True,
          fallback="fun hs v i o w l => of_option (Tx.tx_to_bytes (Tx.Build_tx v i o l false w) hs)"),
+    dict(coq="src_get_txid", file="bitcoinutils/transactions.py", qual="Transaction.get_txid", params=[], sha=True,
+         selfattrs=[("version", "bytes"), ("inputs", "list:txin"), ("outputs", "list:txout"), ("witnesses", "list:witness"), ("locktime", "bytes")],
+         ret="bytes", tiefile="tx_ids", fallback="fun sha256 v i o w l => of_option (Tx.get_txid sha256 (Tx.Build_tx v i o l false w))"),
+    dict(coq="src_get_hash", file="bitcoinutils/transactions.py", qual="Transaction._get_hash", params=[], sha=True,
+         selfattrs=[("version", "bytes"), ("inputs", "list:txin"), ("outputs", "list:txout"), ("witnesses", "list:witness"), ("locktime", "bytes"),
+                    ("has_segwit", "bool")],
+         ret="bytes", tiefile="tx_ids", fallback="fun sha256 v i o w l hs => of_option (Tx.get_wtxid sha256 (Tx.Build_tx v i o l hs w))"),
+    dict(coq="src_get_size", file="bitcoinutils/transactions.py", qual="Transaction.get_size", params=[],
+         selfattrs=[("version", "bytes"), ("inputs", "list:txin"), ("outputs", "list:txout"), ("witnesses", "list:witness"), ("locktime", "bytes"),
+                    ("has_segwit", "bool")],
+         ret="int", tiefile="tx_ids", fallback="fun v i o w l hs => of_option (Tx.get_size (Tx.Build_tx v i o l hs w))"),
 ]
 
 COQTY = {"int": "Z", "bytes": "bytes", "hexbytes": "bytes", "bool": "bool", "int*int": "(Z * Z)", "unit": "unit",
@@ -367,6 +378,23 @@ class Tr:
 
     def call(self, e):
         f = e.func
+        # self.m(args): a method of the same object translated earlier on this run
+        if (isinstance(f, ast.Attribute) and isinstance(f.value, ast.Name) and f.value.id == "self" and f.attr in self.methods and not e.keywords):
+            name = f.attr
+            coq, attrs, rty, sha = self.methods[name][:4]
+            ptys = self.methods[name][4] if len(self.methods[name]) > 4 else []
+            if sha and not self.t.get("sha"): raise Unsupported("call of a hashing method")
+            if len(e.args) != len(ptys): raise Unsupported("method call arity")
+            pre_m = []; args = []
+            for a_, pt in zip(e.args, ptys):
+                p, a, ta = self.expr(a_)
+                if ta != pt: raise Unsupported("method argument type")
+                pre_m += p; args.append(a)
+            for a_, ty in attrs:
+                if "self." + a_ not in self.env or self.env["self." + a_][1] != ty: raise Unsupported("method call needs attribute %s" % a_)
+                args.append(self.env["self." + a_][0])
+            t = self.fresh()
+            return pre_m + [("res", t, "%s%s %s" % (coq, " sha256" if sha else "", " ".join(args)))], t, rty
         # bytes([x])
         if isinstance(f, ast.Name) and f.id == "bytes" and len(e.args) == 1 and isinstance(e.args[0], ast.List) and len(e.args[0].elts) == 1:
             p, a, ta = self.expr(e.args[0].elts[0])
@@ -495,15 +523,6 @@ class Tr:
             return p + [("opt", t, "py_unpack_le %d %s" % (size, a))], t, "unpacked"
         # a call of a function translated earlier: f(args) or self.f(args)
         name = f.id if isinstance(f, ast.Name) else (f.attr if isinstance(f, ast.Attribute) and isinstance(f.value, ast.Name) and f.value.id == "self" else None)
-        if isinstance(f, ast.Attribute) and name in self.methods and not e.args and not e.keywords:
-            coq, attrs, rty, sha = self.methods[name]
-            if sha and not self.t.get("sha"): raise Unsupported("call of a hashing method")
-            args = []
-            for a_, ty in attrs:
-                if "self." + a_ not in self.env or self.env["self." + a_][1] != ty: raise Unsupported("method call needs attribute %s" % a_)
-                args.append(self.env["self." + a_][0])
-            t = self.fresh()
-            return [("res", t, "%s%s %s" % (coq, " sha256" if sha else "", " ".join(args)))], t, rty
         if name in self.known:
             coq, ptys, rty = self.known[name][:3]
             if len(self.known[name]) > 3 and self.known[name][3]:
@@ -770,7 +789,7 @@ def main():
             out.append("Definition %s := %s." % (t["coq"], t["fallback"]))
         out.append("")
         if t.get("callable_method"):
-            METHODS[t["qual"].split(".")[-1]] = (t["coq"], t["selfattrs"], t["ret"], t.get("sha", False))
+            METHODS[t["qual"].split(".")[-1]] = (t["coq"], t["selfattrs"], t["ret"], t.get("sha", False), [ty for _, ty in t["params"]])
         if t.get("register", True):
             known[t["qual"].split(".")[-1]] = (t["coq"], [ty for _, ty in t["params"]] + [ty for _, ty in t.get("selfattrs", [])], t["ret"], t.get("sha", False))
         if t.get("selfattrs") and t.get("register", True):
